@@ -156,7 +156,9 @@ def generate_key_from_templates(
 ) -> KSKM_P11Key | None:
     """Generate a key pair using C_GenerateKeyPair."""
     # Check that a key with that label does not already exist
-    existing_key = get_p11_key(label, p11modules, public=True)
+    existing_key = get_p11_key(label, p11modules, public=True) or get_p11_key(
+        label, p11modules, public=False
+    )
     if existing_key:
         logger.error(f"A key with label {label} already exists: {existing_key}")
         # Since the AEP Keyper only displays 7 characters, we truncate the
